@@ -278,6 +278,128 @@ def sync_properties_fault_points(rng):
     return fails, evals
 
 
+# ------------------------------------------------------------------ (i'') the sync_properties rows of the command-line table
+SP_NAMES = ["colour", "size", "dataset_name", "lr", "optimizer", "batch_size", "mode", "shape"]
+SP_SEQS = ['("red", "green")', "(1, 2, 3)", '["adam", "sgd"]', '("a",)', "(0.1, 0.01)", '("x", 1, None)', "[True, False]",
+           '("it\'s", "b")']
+SP_ANNS = ["Literal['red', 'green']", "int", "Optional[str]", "List[str]", "float", "Union[int, str]"]
+SP_VALS = ["'red'", "1", "None", "0.5", "('a', 'b')", "[1]"]
+SP_HEADER = "from typing import Literal, Optional, List, Union\n"
+SP_WRAPS = ["Optional[{output_param}]", "Optional[Union[{output_param}, str]]"]
+# (kind of the input location, kind of the output location) per pair.  Left out, because the unchanged code ends them with
+# an internal error (both are recorded for C14: eval-mode-replacement, argument-into-statement-position; C20 lists no
+# class for them): --input-eval onto a function argument; a function argument copied onto an assignment
+SP_KINDS_EVAL = [("const", "attr"), ("const", "modvar")]
+SP_KINDS_PLAIN = [(i, o) for i in ("modvar", "attr", "arg") for o in ("modvar", "attr", "arg")
+                  if not (i == "arg" and o != "arg")]
+
+
+def sync_properties_cli_case(rng, same_file, ev, k, wrap):
+    """one invocation of `sync_properties` over a generated project: k properties, each taken from a module-level
+    constant (eval mode), a module-level annotated assignment, a class attribute or a function argument of the input
+    module and written onto an assignment, a class attribute or a function argument of the output module; the two
+    modules are two files or one file"""
+    names = rng.sample(SP_NAMES, k + 1)
+    pairs = [rng.choice(SP_KINDS_EVAL if ev else SP_KINDS_PLAIN) for _ in range(k)]
+    ann, val = lambda: rng.choice(SP_ANNS), lambda: rng.choice(SP_VALS)  # noqa: E731
+    plain = lambda: rng.choice(["str", "int", "object"])  # noqa: E731
+    i_mod, i_attr, i_arg, o_mod, o_attr, o_arg, ips, ops = [], [], [], [], [], [], [], []
+    for n, (ik, ok) in zip(names, pairs):
+        if ik == "const":
+            i_mod.append("%ss = %s" % (n, rng.choice(SP_SEQS)))
+            ips.append(n + "s")
+        elif ik == "modvar":
+            i_mod.append("%s_default: %s = %s" % (n, ann(), val()))
+            ips.append(n + "_default")
+        elif ik == "attr":
+            i_attr.append("    %s: %s = %s" % (n, ann(), val()))
+            ips.append("Defaults." + n)
+        else:
+            i_arg.append("%s: %s = %s" % (n, ann(), val()))
+            ips.append("defaults." + n)
+        {"modvar": o_mod, "attr": o_attr, "arg": o_arg}[ok].append(n)
+        ops.append({"modvar": "", "attr": "Shirt.", "arg": "make."}[ok] + n)
+    # one more member that is not addressed, somewhere on the output side
+    rng.choice([o_mod, o_attr, o_arg]).append(names[-1])
+    for lst in (o_mod, o_attr, o_arg):
+        rng.shuffle(lst)
+    inp = list(i_mod)
+    if i_attr:
+        inp += ["", "", "class Defaults(object):", '    """Defaults"""', ""] + i_attr
+    if i_arg:
+        inp += ["", "", "def defaults(%s):" % ", ".join(i_arg), '    """defaults"""', "    return None"]
+    out = ["%s: %s = %s" % (n, plain(), val()) for n in o_mod]
+    if o_attr:
+        out += ["", "", "class Shirt(object):", '    """A shirt"""', ""] + ["    %s: %s = %s" % (n, plain(), val()) for n in o_attr]
+    if o_arg:
+        out += ["", "", "def make(%s):" % ", ".join("%s: %s = %s" % (n, plain(), val()) for n in o_arg), '    """make"""',
+                "    return None"]
+    return {"same_file": bool(same_file), "eval": bool(ev), "wrap": wrap, "input_params": ips, "output_params": ops,
+            "kinds": ["%s->%s" % p for p in pairs],
+            "input_src": SP_HEADER + "\n" + "\n".join(inp) + "\n", "output_src": SP_HEADER + "\n" + "\n".join(out) + "\n"}
+
+
+def _sync_properties_cli_run(case):
+    """the real command line in a child process on real files -> what is wrong, or None.  C20 on an accepted invocation:
+    it ends without an internal error, nothing but the output file is touched, and the output file parses"""
+    root = tempfile.mkdtemp(prefix="doctrans-verif-cli.")
+    try:
+        outp = os.path.join(root, "shirt.py")
+        if case["same_file"]:
+            inp = outp
+            with open(outp, "w") as f:
+                f.write(case["input_src"] + "\n\n" + case["output_src"][len(SP_HEADER):].lstrip("\n"))
+        else:
+            inp = os.path.join(root, "defaults.py")
+            with open(inp, "w") as f:
+                f.write(case["input_src"])
+            with open(outp, "w") as f:
+                f.write(case["output_src"])
+        argv = ["sync_properties", "--input-filename", inp, "--output-filename", outp]
+        if case["eval"]:
+            argv.append("--input-eval")
+        for ip, op in zip(case["input_params"], case["output_params"]):
+            argv += ["--input-param", ip, "--output-param", op]
+        if case["wrap"] is not None:
+            argv += ["--output-param-wrap", case["wrap"]]
+        before = L.snapshot(root)
+        r = L.run_cli(argv, cwd=root, extra_env={"PYTHONDONTWRITEBYTECODE": "1"})
+        after = L.snapshot(root)
+    finally:
+        shutil.rmtree(root, ignore_errors=True)
+    if r["rc"] == 2 and "usage:" in r["stderr"]:
+        return "an invocation with existing files and as many --input-param as --output-param was rejected"
+    touched = sorted(f for f in set(before) | set(after) if before.get(f) != after.get(f) and f != "shirt.py")
+    if touched:
+        return "sync_properties touched %s (rc=%s)" % (touched, r["rc"])
+    try:
+        ast.parse(after["shirt.py"].decode())
+    except (SyntaxError, UnicodeDecodeError):
+        return "the output file does not parse after sync_properties (rc=%s)" % r["rc"]
+    if r["rc"] != 0 or "Traceback" in r["stderr"]:
+        last = [l for l in r["stderr"].strip().split("\n") if l][-1:] or [""]
+        return "accepted invocation ended with an internal error: %s" % last[0][:160]
+    return None
+
+
+def sync_properties_cli_points(rng, rounds):
+    """the full grid input file = output file x --input-eval x number of property pairs 1..3 x --output-param-wrap
+    absent / given, `rounds` times, the project and the kinds of the addressed locations drawn per cell"""
+    cases = [sync_properties_cli_case(rng, same, ev, k, rng.choice(SP_WRAPS) if wrapped else None)
+             for _ in range(rounds) for same in (False, True) for ev in (False, True) for k in (1, 2, 3)
+             for wrapped in (False, True)]
+    with concurrent.futures.ThreadPoolExecutor(max_workers=8) as ex:
+        res = list(ex.map(_sync_properties_cli_run, cases))
+    fails, hist = [], collections.Counter()
+    for c, what in zip(cases, res):
+        hist["sync_properties-cli:%s:%s:pairs-%d:%s:%s" % ("one-file" if c["same_file"] else "two-files", "eval" if c["eval"] else "noeval",
+                                                           len(c["input_params"]), "wrap" if c["wrap"] else "nowrap",
+                                                           "ok" if what is None else "FAILS")] += 1
+        if what is not None:
+            fails.append({"case": {"sync_properties_cli": c}, "what": what, "class": None})
+    return fails, len(cases), hist
+
+
 def gen_fault_points():
     """gen writes with a bare open(..., 'a'): a failing write leaves a partial new file (known finding class)"""
     fails, evals = [], 0
@@ -532,10 +654,18 @@ def oracle(rng, tier):
     failures += f5
     hist.update(h5)
     e4, gen_seen = e4 + e5, s5
+    # (i'') the sync_properties rows of the command-line table (drawn after everything else)
+    f6, e6, h6 = sync_properties_cli_points(rng, 1 if tier == "quick" else 12)
+    failures += f6
+    hist.update(h6)
+    e4, gen_seen = e4 + e6, gen_seen + e6 - len(f6)
     return {"evaluations": len(shapes) + 4 + e2 + e3 + e4, "distinct_nontrivial": len(seen) + e2 + gen_seen,
             "rule": "CLI: argument shapes of `sync` (each of six options absent/once/twice x truth x truth-file-exists; "
                     + ("all 4374 enumerated" if exhaustive else "sampled in quick tier, exhaustive in thorough") +
-                    ") run through the real command line, plus sync_properties/gen rejections, plus `gen` over the grid "
+                    ") run through the real command line, plus sync_properties/gen rejections, plus `sync_properties` over the "
+                    "grid input file = output file x --input-eval x 1..3 property pairs x template absent/given on generated "
+                    "projects (locations: module constants, assignments, class attributes, function arguments; judged for 'no "
+                    "internal error, nothing but the output touched, output parses'), plus `gen` over the grid "
                     "--imports-from-file shape (absent, module, file path, other file, symbol path of depth 1..4) x --prepend "
                     "shape (absent, with/without final newline, docstring first, importing the input module) x type x input "
                     "module layout (judged for 'no internal error' inside guard_C19, for 'no damage' everywhere); faults: every write point "
@@ -556,6 +686,9 @@ def check_case(case):
         _, guard = prop_C19._decode_class(cl[0])
         what = _gen_cli_judge(c, _gen_cli_run(c), guard and c["existing"] is None and mr[0] != "(err Unmodelled)"
                               and (c.get("out") or {}).get("spelling") != "tilde")
+        return what is None, what or ""
+    if "sync_properties_cli" in case:
+        what = _sync_properties_cli_run(case["sync_properties_cli"])
         return what is None, what or ""
     if case.get("command") == "gen":
         f, _ = gen_fault_points()
